@@ -6,6 +6,8 @@ pub enum ListKind {
     Vec,
     Slice,
     Bytes,
+    /// `slice.iter()` (possibly `.rev()`): a list that is consumed from the front
+    Iter,
 }
 
 #[derive(Clone, Debug)]
